@@ -18,34 +18,17 @@ deriving DecidableEq, Repr
 /-- a resolved receiver: the Impl-model's `Recv` (Impl/Recv.lean) over the driver's element representation -/
 abbrev Recv := Toodee.Recv Nat
 
-/-- one resolution step (PROTOCOL §5) -/
-def resolveSeg (m : Mode) (t : TD Nat) (rc : Recv) (s : Seg) : Res (Option Recv) :=
-  match rc, s with
-  | .root t', .ext => pure (some (.ext t'))
-  | .root t', .viewMut a b c d => do let v ← VW.fromTooDee m (a, b) (c, d) t'; pure (some (.vmut v))
-  | .ext t', .viewMut a b c d => do let v ← VW.fromTooDee m (a, b) (c, d) t'; pure (some (.vmut v))
-  | .root t', .viewShared a b c d => do let v ← VW.fromTooDee m (a, b) (c, d) t'; pure (some (.vsh v))
-  | .ext t', .viewShared a b c d => do let v ← VW.fromTooDee m (a, b) (c, d) t'; pure (some (.vsh v))
-  | .vmut v, .viewMut a b c d => do let v' ← v.view m (a, b) (c, d); pure (some (.vmut v'))
-  | .vmut v, .viewShared a b c d => do let v' ← v.viewChecked m (a, b) (c, d); pure (some (.vsh v'))
-  | .vsh v, .viewShared a b c d => do let v' ← v.view m (a, b) (c, d); pure (some (.vsh v'))
-  | .root _, .sliceMut c r n => do
-      let sl ← t.win.indexTo n
-      let v ← VW.newMut c r sl
-      pure (some (.vmut v))
-  | .root _, .sliceShared c r n => do
-      let sl ← t.win.indexTo n
-      let v ← VW.newShared c r sl
-      pure (some (.vsh v))
-  | _, _ => pure none
+/-- a receiver segment of the protocol (PROTOCOL §5) as a borrowing step of the Impl-model -/
+def Seg.toBorrow : Seg → Borrow
+  | .ext => .asExt
+  | .viewMut a b c d => .viewMut (a, b) (c, d)
+  | .viewShared a b c d => .view (a, b) (c, d)
+  | .sliceMut c r n => .sliceMut c r n
+  | .sliceShared c r n => .slice c r n
 
-def resolve (m : Mode) (t : TD Nat) : Recv → List Seg → Res (Option Recv)
-  | rc, [] => pure (some rc)
-  | rc, s :: ss => do
-    match ← resolveSeg m t rc s with
-    | none => pure none
-    | some rc' => resolve m t rc' ss
-
+/-- resolving a receiver token = the Impl-model's chain of borrowing steps (`Recv.borrowAll`, Impl/Recv.lean) -/
+def resolve (m : Mode) (_t : TD Nat) (rc : Recv) (segs : List Seg) : Res (Option Recv) :=
+  rc.borrowAll m (segs.map Seg.toBorrow)
 
 /-- what an op produced: result tokens, new root data/dims, drops, number of elements created -/
 structure MOut where
